@@ -281,6 +281,16 @@ theorem gen_egressUp_shape :
     Scion.Gen.R2Bfd.SCMPTypeExternalInterfaceDown = 5 ∧
     Scion.Gen.R2Bfd.SCMPTypeInternalConnectivityDown = 6 := by decide
 
+/-- T3 / processing loop: in `dataPlane.runProcessor` every case of `switch disp` except `pForward` ends the
+    loop iteration on EVERY path (each arm of the slow-path `select` included), so a packet that
+    `validateEgressUp` put on the slow path never reaches the forwarding code after the switch
+    (`fwLink.Send`) - also when the slow-path queue is full -/
+theorem gen_runProcessor_only_forward_reaches_send :
+    (∀ c ∈ Scion.Gen.R2Bfd.runProcessorCases, c.2 = false → c.1 = "pForward") ∧
+    Scion.Gen.R2Bfd.runProcessorCases.lookup "pSlowPath" = some true ∧
+    Scion.Gen.R2Bfd.runProcessorCases.lookup "pForward" = some false ∧
+    Scion.Gen.R2Bfd.runProcessorAfterSwitch.count "fwLink.Send" = 1 := by decide
+
 /-! Non-vacuity: external link (interface 1) and sibling link (interface 7), both with BFD. -/
 def ex0 : State :=
   { localIA := 5, links := [⟨.internal, 0, none⟩, ⟨.external, 1, some .down⟩, ⟨.sibling, 0, some .down⟩],
